@@ -322,6 +322,38 @@ def run(ctx):
             other_reads = [c for c in hh.calls("re:AsyncBufReadExt::fill_buf$|AsyncReadExt::read(_exact|_u8|_i32|_buf)?$") if claim_ and hh.dominates(claim_[0].block, c.block)]
             r8.check(not other_reads, "no-raw-client-reads", "the transaction loop reads from the client only through read_message", "the transaction loop also reads the client socket with %s" % sorted({c.name.split("::")[-1] for c in other_reads}))
 
+    # ---------------- R9 the COPY sub-protocol cannot be used to shift other clients' replies
+    r9 = ctx.rule("C11-R9", "while the server is in COPY mode pgcat does not read it per message, so only COPY messages may be forwarded: every send to the server outside the CopyData / CopyDone / CopyFail arms "
+                  "of the transaction loop is reached only where Server::in_copy_mode() was false in that iteration (otherwise the reply to the stray message is read up to the ReadyForQuery of the failed COPY, the real "
+                  "answer stays unread, and every later client of that connection gets the previous client's answer)", floor=2)
+    if hh:
+        hsw9 = switches(hh)
+        code_sw9 = [sw for sw in hsw9 if sw.ty in ("char", "u32") and {v for v, _ in sw.targets} >= {81, 83, 100, 99}]
+        rm9 = [c.block for c in hh.calls("pgcat::messages::read_message")]
+        claim9 = hh.calls("pgcat::server::Server::claim")
+        heads9 = [hd for hd in loop_headers(hh) if any(b_ in natural_loop(hh, hd) for b_ in rm9)]
+        inner9 = [hd for hd in heads9 if claim9 and hh.dominates(claim9[0].block, hd)]
+        if not code_sw9 or not inner9:
+            r9.missing("message-code switch / transaction loop in Client::handle")
+        else:
+            arms9 = {v: t for v, t in code_sw9[0].targets}
+            copy_arms = {arms9[v] for v in (100, 99, 102) if v in arms9}
+            _T9, F9, _ = call_bool_edges(hh, "pgcat::server::Server::in_copy_mode", switches_cache=hsw9)
+            n9 = 0
+            for c in hh.calls("pgcat::client::Client::send_and_receive_loop", "pgcat::client::Client::send_server_message", "pgcat::server::Server::send"):
+                if not hh.dominates(code_sw9[0].block, c.block) or any(hh.dominates(a_, c.block) for a_ in copy_arms):
+                    continue
+                n9 += 1
+                # paths of this iteration that do not cross in_copy_mode()==false; the message code is tracked through the tests of it
+                # (`matches!(code, 'd' | 'c' | ..)` followed by `match code`), so that "code is a COPY message" and "the Query arm" exclude each other
+                code_locals = set(hh.locals_named("code"))
+                reach9 = reach_with_values(hh, [min(inner9)], code_locals, avoid_edges=set(F9))
+                w9 = None if c.block not in reach9 else [c.block]
+                r9.check(bool(F9) and w9 is None, "no-stray-message-in-copy-mode#%d" % n9, "the send at client.rs:%s is reached only where in_copy_mode() was false" % c.span.split(":")[1],
+                         "a Query / Sync sent by a client whose COPY FROM STDIN is still open is forwarded (client.rs:%s): after a COPY the server has already failed, the reply is taken up to the wrong ReadyForQuery and the connection "
+                         "goes back to the pool with an answer unread - every later client gets the previous client's answer" % c.span.split(":")[1], c.where())
+            r9.check(n9 >= 2, "non-copy-send-sites", "%d sends outside the COPY arms examined" % n9, "expected >= 2 sends outside the COPY arms, found %d" % n9)
+
     # ---------------- inventory (informational)
     inv = ctx.rule("C11-INV", "inventory of panic-capable operations on data read from the client in the protocol entry functions (a panic here only ends the sender's task)", armed=False)
     tot = 0
